@@ -213,4 +213,11 @@ class ListField(Field):
         """
         if self.field is None or isinstance(self.field, AnyField):
             return value
+        if (
+            isinstance(self.field, Field)
+            and isinstance(value, (list, tuple))
+            and not isinstance(value, ListProxy)
+        ):
+            # items have their own on-disk form (bytes, digests, secrets, ...)
+            value = [self.field.to_python(cfg, item) for item in value]
         return ListProxy(cfg, self, value)
